@@ -1,4 +1,6 @@
 import Cfdm.Lemmas.Heap
+import Cfdm.Lemmas.HeapSites
+import Cfdm.Lemmas.HeapViews
 /-
 C04 — copies are independent; operations that are not in-place are pure.
 Property theorems only (model: Cfdm/Model/Heap.lean, lemmas: Cfdm/Lemmas/Heap.lean).
@@ -49,6 +51,23 @@ example : Below exCoord 11 ∧ ∀ a ∈ liveT (cfdmTbl) exCoord, a ∉ keptT (c
   constructor
   · intro a ha; simp [exCoord, T.addrs, Kids.addrs] at ha; omega
   · decide
+
+/-- an object in which one list is reached both through `custom` (handed over by a copy) and through
+`properties` (re-created by a copy) -/
+def exAliased : T :=
+  .node 0 (.obj .container "DimensionCoordinate") (.cons "_components"
+    (.node 1 (.comps .container)
+      (.cons "custom" (.node 2 .dict (.cons "k" (.node 3 .list .nil) .nil))
+      (.cons "properties" (.node 4 .dict (.cons "p" (.node 3 .list .nil) .nil)) .nil))) .nil)
+
+/-- **the well-formedness hypothesis of `C04_copy_sep` cannot be dropped**: when a cell of `x` sits both at a
+re-created and at a handed-over position, the copy still reaches a cell that is live in `x`. -/
+theorem C04_wf_needed :
+    (∃ a ∈ liveT cfdmTbl exAliased, a ∈ keptT cfdmTbl exAliased) ∧
+    ¬ Sep cfdmTbl exAliased (copyT cfdmTbl exAliased 5).1 := by
+  refine ⟨⟨3, by decide, by decide⟩, ?_⟩
+  intro h
+  exact h.2 3 (by decide) (by decide)
 
 /-- **what a copy may share** (completeness of the sharing graph the driver prints): every
 cell of the copy is new or is a handed-over cell of the source; every live cell is new. -/
@@ -187,6 +206,13 @@ theorem C04_table_disciplined (dk : List String) (w : Write) (h : TableWrite w) 
   | delConstructMeta a k ha =>
     exact ⟨⟨attr_live dk, comp_live dk _ (by decide) (by decide), cattr_meta_topLive dk a ha⟩, rfl, by intro v h; cases h⟩
   | custom k v => exact ⟨⟨attr_live dk, comp_topLive dk _⟩, rfl, by intro v h; cases h⟩
+  | delCustom k => exact ⟨⟨attr_live dk, comp_topLive dk _⟩, rfl, by intro v h; cases h⟩
+  | delNcAttr w p =>
+    exact ⟨⟨attr_live dk, comp_live dk _ (by decide) (by decide), item_topLive dk w⟩, rfl, by intro v h; cases h⟩
+  | boundsComponent c v =>
+    exact ⟨⟨attr_live dk, comp_live dk _ (by decide) (by decide), attr_topLive dk⟩, rfl, by intro v h; cases h⟩
+  | ringComponent c v =>
+    exact ⟨⟨attr_live dk, comp_live dk _ (by decide) (by decide), attr_topLive dk⟩, rfl, by intro v h; cases h⟩
   | inConstruct t k w hw ih =>
     exact ⟨allLive_prefix dk t k w.path ih.1, ih.2.1, ih.2.2⟩
 
@@ -349,5 +375,283 @@ theorem C04_old_set_data_counterexample :
 /-- … while the receiver is untouched even by the old code (the defect is in the result only) -/
 theorem C04_old_set_data_receiver_unchanged :
     (obsT (setDataOffOld (.leaf 0 false 7) exBounded 6).1).beq (obsT exBounded) = true := by decide
+
+/-! ## 7. The discipline re-derived from the code (regenerated on every run)
+
+`Cfdm/Generated/HeapSites.lean` lists every statement of cfdm that mutates, in place, a container
+fetched from the storage of `self`, attributed to the class families whose operations reach it
+(harness/heapsites_C04.py).  The theorems below are re-checked by `lake build` whenever that
+table changes: a new in-place mutation of a value that copies hand over (a nested value under
+`custom`, the shared `_components` of a `NumpyArray`, the `attributes` of a file array, …) makes
+`C04_code_sites_ok` fail. -/
+
+/-- **every in-place mutation site of the code passes the liveness check** (finite table, `decide`) -/
+theorem C04_code_sites_ok : ∀ s ∈ codeSites, siteOk s = true := by decide
+
+/-- the regenerated table is not empty, and every entry of it was typed -/
+example : codeSites ≠ [] ∧ codeSites.all Option.isSome = true := by decide
+
+/-- the writes the code can perform on a receiver: a site (any instantiation of its dynamic keys, any
+stored value — also a write into a buffer), possibly inside a nested cfdm object that is reached
+through entries that copies re-create (data, bounds, interior ring, a metadata construct, …) -/
+inductive CodeWrite : Write → Prop
+  | site (s : Site) (hs : some s ∈ codeSites) (ρ : Nat → String) (u : Upd) :
+      CodeWrite ⟨s.path ρ, u, .placeholder⟩
+  | nested (pre : List Step) (hpre : ∀ st ∈ pre, st.liveB = true) (w : Write) (h : CodeWrite w) :
+      CodeWrite { w with path := pre ++ w.path }
+
+/-- **code_sites_disciplined.**  Every write the code can perform goes through a live path of its
+receiver, whatever `copy(data=False)` leaves out. -/
+theorem C04_code_sites_disciplined (dk : List String) (w : Write) (h : CodeWrite w) :
+    AllLive (cfdmTbl dk) w.path ∧ w.via = .placeholder := by
+  induction h with
+  | site s hs ρ u =>
+    have hok : siteOk (some s) = true := C04_code_sites_ok (some s) hs
+    exact ⟨Site.ok_sound s hok dk ρ, rfl⟩
+  | nested pre hpre w _ ih =>
+    exact ⟨allLive_append _ pre w.path (fun st hst => Step.liveB_sound dk st (hpre st hst)) ih.1, ih.2⟩
+
+/-- `nc_set_global_attribute` on the bounds of a coordinate: a site of the generated table, nested -/
+example : CodeWrite ⟨[.fattr .container, .fcomp .container "bounds"] ++
+    [.fattr .container, .fcomp .container "netcdf", .item "global_attributes"], .setKey "history" (.imm 1), .placeholder⟩ :=
+  .nested [.fattr .container, .fcomp .container "bounds"] (by decide)
+    ⟨[.fattr .container, .fcomp .container "netcdf", .item "global_attributes"], .setKey "history" (.imm 1), .placeholder⟩
+    (.site ⟨.container, .comp (some "netcdf"), [some "global_attributes"], false, none⟩ (by decide) (fun _ => "") _)
+
+/-- **copy, then any history of the code's own writes on either side** — the statement of
+`C04_copy_independent` with the hand-written method table replaced by the table extracted from the code. -/
+theorem C04_copy_independent_code (dk : List String) (x : T) (n : Nat) (ws : List Write)
+    (hb : Below x n) (hwf : ∀ a ∈ liveT (cfdmTbl dk) x, a ∉ keptT (cfdmTbl dk) x)
+    (hws : ∀ w ∈ ws, CodeWrite w) :
+    let y := (copyT (cfdmTbl dk) x n).1
+    let n' := (copyT (cfdmTbl dk) x n).2
+    obsT (runWrites ws (x, y, n')).1 = obsT x ∧ obsT (runWrites ws (y, x, n')).1 = obsT y := by
+  intro y n'
+  have hsep := C04_copy_sep (cfdmTbl dk) x n hb hwf
+  obtain ⟨c1, c2, _⟩ := copyT_spec (cfdmTbl dk) x n
+  have hx' : Below x n' := fun a ha => by have := hb a ha; show a < (copyT (cfdmTbl dk) x n).2; omega
+  have hy' : Below y n' := by
+    intro a ha
+    rcases c2 a ha with h | h
+    · exact h.2
+    · have := hb a (keptT_sub _ x a h); show a < (copyT (cfdmTbl dk) x n).2; omega
+  have hl : ∀ w ∈ ws, AllLive (cfdmTbl dk) w.path := fun w hw => (C04_code_sites_disciplined dk w (hws w hw)).1
+  exact ⟨(C04_frame _ ws x y n' hsep hx' hy' hl).1, (C04_frame _ ws y x n' hsep.symm hy' hx' hl).1⟩
+
+/-- the check is not vacuous: a statement that mutated a value stored under `custom` in place
+(`self._custom["k"].append(…)`), or wrote into the `_components` of a `NumpyArray`, or into the
+attribute dictionary that file arrays share, would be rejected … -/
+theorem C04_site_check_rejects :
+    Site.ok ⟨.container, .comp (some "custom"), [some "k"], false, none⟩ = false ∧
+    Site.ok ⟨.nparray, .comps, [], false, none⟩ = false ∧
+    Site.ok ⟨.filearray, .comp (some "attributes"), [], false, none⟩ = false ∧
+    Site.ok ⟨.constructs, .attr "_filters_applied", [], false, none⟩ = false := by decide
+
+/-- … and rightly so: the first of them shows in the source of a copy (`exCoord` holds a list under `custom`) -/
+theorem C04_site_check_needed :
+    (obsT (runWrites [⟨(⟨.container, .comp (some "custom"), [some "k"], false, none⟩ : Site).path (fun _ => ""),
+        .setKey "0" (.imm 9), .placeholder⟩]
+      (exCoord, (copyT cfdmTbl exCoord 11).1, (copyT cfdmTbl exCoord 11).2)).1).beq (obsT exCoord) = false := by decide
+
+/-! ## 8. A non-in-place call that raises half-way, and the independence of what it returns -/
+
+/-- **inplace_off_raising.**  A method with the switch off that stops after any number `k` of its
+writes (it raised) has not touched its receiver. -/
+theorem C04_inplace_off_raising (tbl : Tbl) (m : List Write) (x : T) (n k : Nat)
+    (hb : Below x n) (hwf : ∀ a ∈ liveT tbl x, a ∉ keptT tbl x)
+    (hvia : ∀ w ∈ m, w.via = .placeholder) (hlive : ∀ w ∈ m, AllLive tbl w.path) :
+    (inplaceOff tbl (m.take k) x n).1 = x :=
+  (C04_inplace_off tbl (m.take k) x n hb hwf
+    (fun w hw => hvia w (List.mem_of_mem_take hw)) (fun w hw => hlive w (List.mem_of_mem_take hw))).1
+
+example : (mSetComponent "data_axes" (.imm 3) ++ mSetComponent "data" (.leaf 0 false 7)).take 1 ≠ [] := by decide
+
+/-- a `set_data(…, axes=…, inplace=False)` that recorded the axes through `self` before copying would
+leave them on the receiver even when it then raises (only the first write performed) -/
+theorem C04_axes_via_self_counterexample :
+    (obsT (inplaceOff cfdmTbl ((mSetDataAxesViaSelf (.imm 3) (.leaf 0 false 7)).take 1) exField 40).1).beq
+      (obsT exField) = false := by decide
+
+/-- **inplace_off_result_independent.**  What a non-in-place call returns is separate from the
+receiver: any later history of disciplined writes on the result leaves the receiver unchanged, and
+any later history on the receiver leaves the result unchanged. -/
+theorem C04_inplace_off_result_independent (tbl : Tbl) (m ws : List Write) (x : T) (n : Nat)
+    (hb : Below x n) (hwf : ∀ a ∈ liveT tbl x, a ∉ keptT tbl x)
+    (hvia : ∀ w ∈ m, w.via = .placeholder) (hlive : ∀ w ∈ m, AllLive tbl w.path)
+    (hws : ∀ w ∈ ws, AllLive tbl w.path) :
+    let r := (inplaceOff tbl m x n).2.1
+    let n' := (inplaceOff tbl m x n).2.2
+    Sep tbl x r ∧ (runWrites ws (x, r, n')).1 = x ∧ (runWrites ws (r, x, n')).1 = r := by
+  intro r n'
+  have hsep := C04_copy_sep tbl x n hb hwf
+  obtain ⟨c1, c2, _⟩ := copyT_spec tbl x n
+  have hx' : Below x (copyT tbl x n).2 := fun a ha => by have := hb a ha; omega
+  have hy' : Below (copyT tbl x n).1 (copyT tbl x n).2 := by
+    intro a ha
+    rcases c2 a ha with h | h
+    · exact h.2
+    · have := hb a (keptT_sub _ x a h); omega
+  have hrun : inplaceOff tbl m x n = runWrites m (x, (copyT tbl x n).1, (copyT tbl x n).2) := by
+    simp only [inplaceOff]; exact runVia_eq_runWrites m _ hvia
+  obtain ⟨f1, f2, f3, f4⟩ := runWrites_frame_below tbl m x _ _ hsep hx' hy' hlive
+  have hr : r = (runWrites m (x, (copyT tbl x n).1, (copyT tbl x n).2)).2.1 := by
+    show (inplaceOff tbl m x n).2.1 = _; rw [hrun]
+  have hn : n' = (runWrites m (x, (copyT tbl x n).1, (copyT tbl x n).2)).2.2 := by
+    show (inplaceOff tbl m x n).2.2 = _; rw [hrun]
+  rw [hr, hn]
+  exact ⟨f2, (runWrites_frame tbl ws x _ _ f2 f3 f4 hws).1, (runWrites_frame tbl ws _ x _ f2.symm f4 f3 hws).1⟩
+
+/-- **subspace.**  `x[indices]` of a construct (copy, then the subspaced data replace the data of the
+copy, of its bounds and of its interior ring) leaves `x` unchanged and is separate from it — an
+instance of the two theorems above, because every write of `mGetitem` is a table write. -/
+theorem C04_getitem_independent (dk : List String) (d : T) (b r : Option T) (x : T) (n : Nat) (ws : List Write)
+    (hb : Below x n) (hwf : ∀ a ∈ liveT (cfdmTbl dk) x, a ∉ keptT (cfdmTbl dk) x)
+    (hws : ∀ w ∈ ws, TableWrite w) :
+    (getitemT (cfdmTbl dk) d b r x n).1 = x ∧
+    Sep (cfdmTbl dk) x (getitemT (cfdmTbl dk) d b r x n).2.1 ∧
+    (runWrites ws (x, (getitemT (cfdmTbl dk) d b r x n).2.1, (getitemT (cfdmTbl dk) d b r x n).2.2)).1 = x := by
+  have hm : ∀ w ∈ mGetitem d b r, TableWrite w := by
+    intro w hw
+    simp only [mGetitem, mSetComponent, List.mem_append, List.mem_cons, List.not_mem_nil, or_false] at hw
+    rcases hw with (rfl | hw) | hw
+    · exact .setComponent _ _
+    · cases b with
+      | none => simp at hw
+      | some b' => simp only [List.mem_cons, List.not_mem_nil, or_false] at hw; subst hw; exact .boundsComponent _ _
+    · cases r with
+      | none => simp at hw
+      | some r' => simp only [List.mem_cons, List.not_mem_nil, or_false] at hw; subst hw; exact .ringComponent _ _
+  have hvia := fun w hw => (C04_table_disciplined dk w (hm w hw)).2.1
+  have hlive := fun w hw => (C04_table_disciplined dk w (hm w hw)).1
+  have h1 := C04_inplace_off (cfdmTbl dk) (mGetitem d b r) x n hb hwf hvia hlive
+  have h2 := C04_inplace_off_result_independent (cfdmTbl dk) (mGetitem d b r) ws x n hb hwf hvia hlive
+    (fun w hw => (C04_table_disciplined dk w (hws w hw)).1)
+  exact ⟨h1.1, h2.1, h2.2.1⟩
+
+/-- the subspace of `exBounded` really differs from it (new data in the construct and in its bounds) -/
+example : (obsT (getitemT cfdmTbl (.leaf 0 false 8) (some (.leaf 0 false 9)) none exBounded 6).2.1).beq (obsT exBounded) = false := by
+  decide
+
+/-! ## 9. Pickling -/
+
+/-- **pickle.**  `pickle.loads(pickle.dumps(x))` (and `copy.deepcopy` of an object without a `copy`
+method of its own) is a completely new structure: it shares no cell at all with `x` — so the two are
+separate under every table — and has the same fingerprint. -/
+theorem C04_pickle_independent (tbl : Tbl) (x : T) (n : Nat) (hb : Below x n) :
+    (∀ a ∈ (deepT x n).1.addrs, a ∉ x.addrs) ∧ Sep tbl x (deepT x n).1 ∧ obsT (deepT x n).1 = obsT x := by
+  obtain ⟨_, h⟩ := deepT_spec x n
+  refine ⟨?_, ⟨?_, ?_⟩, obsT_deepT x n⟩
+  · intro a ha hx; have := h a ha; have := hb a hx; omega
+  · intro a ha hl; have := h a (liveT_sub tbl _ a hl); have := hb a ha; omega
+  · intro a ha hy; have := h a hy; have := hb a (liveT_sub tbl x a ha); omega
+
+example : (deepT exCoord 11).1.addrs = [11, 12, 13, 14, 15, 16, 17, 18, 19, 20, 21] := by decide
+
+/-! ## 10. Views: the intended sharing, stated -/
+
+/-- **view_spec.**  A view (`Constructs._view()`, behind `Field.domain`) is one new cell; it reaches
+every cell below the viewed collection, and nothing else. -/
+theorem C04_view_spec (a : Nat) (k : Kind) (ks : Kids) (n : Nat) :
+    (∀ b ∈ ks.addrs, b ∈ (viewT (.node a k ks) n).1.addrs) ∧
+    (∀ b ∈ (viewT (.node a k ks) n).1.addrs, b = n ∨ b ∈ (T.node a k ks).addrs) := by
+  constructor
+  · intro b hb
+    simp only [viewT, T.addrs, List.mem_cons]
+    exact Or.inr (set_getD_addrs "_viewed" _ ks b hb)
+  · intro b hb
+    simp only [viewT, T.addrs, List.mem_cons] at hb ⊢
+    rcases hb with rfl | hb
+    · exact Or.inl rfl
+    · rcases set_addrs "_viewed" _ ks b hb with h | h
+      · exact Or.inr (Or.inr h)
+      · cases hg : ks.get? "_viewed" with
+        | none => rw [hg] at h; exact Or.inr (by simpa [T.addrs] using h)
+        | some v => rw [hg] at h; exact Or.inr (Or.inr (get_addrs "_viewed" v ks hg b h))
+
+/-- **view_in_sync.**  Whatever is written into a cell below the viewed collection (a construct is
+set or removed, a construct is modified, data axes change) shows in the view exactly as in the
+collection: the view of the written collection is the written view. -/
+theorem C04_view_in_sync (a : Nat) (u : Upd) (b : Nat) (k : Kind) (ks : Kids) (n : Nat)
+    (hb : b ≠ a) (hn : n ≠ a) :
+    applyT a u (viewT (.node b k ks) n).1 = (viewT (applyT a u (.node b k ks)) n).1 := by
+  simp only [viewT, applyT, hb, hn, ite_false, applyK_set, applyK_get]
+  congr 2
+  cases hg : ks.get? "_viewed" with
+  | none => simp [applyT, hb]
+  | some v => simp
+
+/-- a collection with one construct, and its view -/
+def exConstructs : T :=
+  .node 0 (.obj .constructs "Constructs")
+    (.cons "_construct_type" (.node 1 .dict (.cons "auxiliarycoordinate0" (.imm 1) .nil))
+    (.cons "_constructs" (.node 2 .dict (.cons "auxiliary_coordinate" (.node 3 .dict (.cons "auxiliarycoordinate0"
+      (.node 4 (.obj .container "AuxiliaryCoordinate") (.cons "_components"
+        (.node 5 (.comps .container) (.cons "properties" (.node 6 .dict .nil) .nil)) .nil)) .nil)) .nil)) .nil))
+
+/-- removing a construct through the collection is seen through the view (the sharing is real) -/
+example : (obsT (applyT 3 (.delKey "auxiliarycoordinate0") (viewT exConstructs 7).1)).beq (obsT (viewT exConstructs 7).1) = false := by
+  decide
+
+theorem shallow_cattr_constructs_live : Step.liveIn shallowCopyTbl (.cattr "_constructs") := by
+  intro k hk
+  cases k with
+  | obj f c =>
+    have hf : f = .constructs := by simpa [Step.ok] using hk
+    subst hf
+    simp [shallowCopyTbl, shallowCopyMode, Step.key, Mode.live]
+  | _ => simp [Step.ok] at hk
+
+theorem shallow_item_topLive (key : String) : Step.topLiveIn shallowCopyTbl (.item key) := by
+  intro k hk
+  cases k <;> simp_all [Step.ok, shallowCopyTbl, shallowCopyMode]
+
+theorem shallow_cattr_meta_topLive (a : String)
+    (h : a ∈ ["_construct_type", "_construct_axes", "_key_base"]) : Step.topLiveIn shallowCopyTbl (.cattr a) := by
+  intro k hk
+  cases k with
+  | obj f c =>
+    have hf : f = .constructs := by simpa [Step.ok] using hk
+    subst hf
+    simp only [List.mem_cons, List.not_mem_nil, or_false] at h
+    rcases h with rfl | rfl | rfl <;> simp [shallowCopyTbl, shallowCopyMode, Step.key]
+  | _ => simp [Step.ok] at hk
+
+/-- **shallow_copy.**  `c.shallow_copy()` shares the construct objects and nothing of the
+bookkeeping: any history of membership writes (constructs set or removed, data axes set or
+removed) on either of the two leaves the other unchanged. -/
+theorem C04_shallow_copy_membership_independent (x : T) (n : Nat) (ws : List Write)
+    (hb : Below x n) (hwf : ∀ a ∈ liveT shallowCopyTbl x, a ∉ keptT shallowCopyTbl x)
+    (hws : ∀ w ∈ ws, MembershipWrite w) :
+    let y := (copyT shallowCopyTbl x n).1
+    let n' := (copyT shallowCopyTbl x n).2
+    (runWrites ws (x, y, n')).1 = x ∧ (runWrites ws (y, x, n')).1 = y := by
+  intro y n'
+  have hsep := C04_copy_sep shallowCopyTbl x n hb hwf
+  obtain ⟨c1, c2, _⟩ := copyT_spec shallowCopyTbl x n
+  have hx' : Below x n' := fun a ha => by have := hb a ha; show a < (copyT shallowCopyTbl x n).2; omega
+  have hy' : Below y n' := by
+    intro a ha
+    rcases c2 a ha with h | h
+    · exact h.2
+    · have := hb a (keptT_sub _ x a h); show a < (copyT shallowCopyTbl x n).2; omega
+  have hl : ∀ w ∈ ws, AllLive shallowCopyTbl w.path := by
+    intro w hw
+    cases hws w hw with
+    | construct t k v => exact ⟨shallow_cattr_constructs_live, shallow_item_topLive t⟩
+    | delConstruct t k => exact ⟨shallow_cattr_constructs_live, shallow_item_topLive t⟩
+    | setMeta a k v h => exact shallow_cattr_meta_topLive a h
+    | delMeta a k h => exact shallow_cattr_meta_topLive a h
+  exact ⟨(C04_frame _ ws x y n' hsep hx' hy' hl).2.1, (C04_frame _ ws y x n' hsep.symm hy' hx' hl).2.1⟩
+
+example : Below exConstructs 7 ∧ ∀ a ∈ liveT shallowCopyTbl exConstructs, a ∉ keptT shallowCopyTbl exConstructs := by
+  constructor
+  · intro a ha; simp [exConstructs, T.addrs, Kids.addrs] at ha; omega
+  · decide
+
+/-- … whereas a write *inside* a shared construct shows in the other one (intended: the constructs are shared) -/
+theorem C04_shallow_copy_shares_constructs :
+    (obsT (applyT 5 (.setKey "netcdf" (.imm 1)) (copyT shallowCopyTbl exConstructs 7).1)).beq
+      (obsT (copyT shallowCopyTbl exConstructs 7).1) = false ∧
+    ((copyT shallowCopyTbl exConstructs 7).1.addrs.filter (· < 7)) = [4, 5, 6] := by decide
 
 end Cfdm.Props.C04
